@@ -121,3 +121,66 @@ def scratch_dir() -> str:
     if not d:
         raise RuntimeError('VERIF_SCRATCH not set')
     return d
+
+
+class L1R:
+    """One real RemoteFdExecutor.run() in a sim thread; the harness plays the
+    acceptor's delegate_work_to_pool(): address, then the descriptor, over a pipe."""
+
+    def __init__(self, world: World, flags: argparse.Namespace, iid: str = '1') -> None:
+        from proxy.core.work.fd import RemoteFdExecutor
+        from .mp import sim_pipe
+        self.w = world
+        self.flags = flags
+        self.parent_conn, child = sim_pipe()
+        self.ex = RemoteFdExecutor(iid=iid, work_queue=child, flags=flags)
+        self.thread = SimThread(target=self.ex.run, name='executor')
+        self.thread.start()
+        self.accepted: List[Stream] = []
+        self.n = 0
+
+    def connector(self, cap_to_proxy: int = 65536, cap_to_client: int = 65536,
+                  faultable: bool = False, track_io: bool = False,
+                  addr: Optional[Any] = None) -> Callable[[Peer], Optional[Stream]]:
+        from .mp import sim_send_handle
+
+        def fn(peer: Peer) -> Optional[Stream]:
+            w = self.w
+            self.n += 1
+            a, b = w.stream_pair(cap_to_client, cap_to_proxy, peer.name + ':a', peer.name + ':p')
+            b.faultable = faultable
+            if track_io:
+                b.io_times = []
+            caddr = addr or ('127.0.0.1', 50000 + self.n)
+            a.laddr, a.raddr = caddr, ('127.0.0.1', 8899)
+            b.laddr, b.raddr = ('127.0.0.1', 8899), caddr
+            # actor steps run inside whichever thread holds the baton; descriptor
+            # bookkeeping must happen in the main process table
+            cur = w.current
+            saved = cur.proc if cur is not None else None
+            if cur is not None:
+                cur.proc = w.main_proc
+            try:
+                fd = w.main_proc.alloc(b)
+                sock = SimSocket(fileno=fd)
+                self.accepted.append(b)
+                w.ev(peer.name, 'connect', 'fd=%d' % fd)
+                # delegate_work_to_pool(): send addr, send handle, close our copy
+                self.parent_conn.send(caddr)
+                sim_send_handle(self.parent_conn, sock.fileno(), None)
+                sock.close()
+            finally:
+                if cur is not None:
+                    cur.proc = saved
+            return a
+        return fn
+
+    def alive(self) -> bool:
+        return not self.thread.finished
+
+    def stop(self, wait: float = 30.0) -> bool:
+        if self.thread.finished:
+            return True
+        self.ex.running.set()
+        self.w.run_until(lambda: self.thread.finished, wait)
+        return self.thread.finished
